@@ -138,6 +138,8 @@ class Config:
     max_paths: int = 20000
     max_steps: int = 50000
     mark_loops: bool = False
+    preempt_in: set = field(default_factory=set)  # function qualnames at whose statement boundaries `preempt_action` may run once
+    preempt_action: Optional[Callable] = None  # (interp, run, stmt) -> None: what another thread does, atomically
     max_seconds: float = 60.0
     record_loads: set = field(default_factory=set)  # field names whose reads on repo objects are recorded as effects
     no_inline: set = field(default_factory=set)  # repo functions treated as opaque effects
@@ -547,6 +549,15 @@ class Interp:
         run.steps += 1
         if run.steps > self.cfg.max_steps:
             raise CutoffSig(f"step budget {self.cfg.max_steps} exhausted at {self.locof(st)}")
+        if self.cfg.preempt_action is not None and env.func in self.cfg.preempt_in and not run.memo.get("@preempted") \
+                and not run.memo.get("@in_preempt"):
+            if run.choose(2, self.locof(st), f"another thread runs before `{short(st, 50)}`") == 1:
+                run.memo["@preempted"] = self.locof(st)
+                run.memo["@in_preempt"] = True
+                try:
+                    self.cfg.preempt_action(self, run, st)
+                finally:
+                    run.memo["@in_preempt"] = False
         m = getattr(self, "st_" + type(st).__name__, None)
         if m is None:
             raise Unsupported(f"statement kind {type(st).__name__} at {self.locof(st)}")
